@@ -42,25 +42,24 @@ func updateParse(
 
 	module, err := rparse.ModuleWithOpts(fileURI, content, options)
 
-	// the file may have been deleted or renamed while it was being parsed: its module, refs and
-	// parse errors must not be re-created, or they outlive the file in the cache
-	if _, ok := cache.GetFileContents(fileURI); !ok {
-		return false, nil
-	}
-
 	if err == nil {
-		// if the parse was ok, clear the parse errors
-		cache.SetParseErrors(fileURI, []types.Diagnostic{})
-		cache.SetModule(fileURI, module)
-		cache.SetSuccessfulParseLineCount(fileURI, len(lines))
+		definedRefs := refs.DefinedInModule(module, builtins)
+
+		// the file may have been deleted or renamed while it was being parsed: its module, refs and
+		// parse errors must not be re-created, or they outlive the file in the cache
+		if !cache.IfPresent(fileURI, func() {
+			// if the parse was ok, clear the parse errors
+			cache.SetParseErrors(fileURI, []types.Diagnostic{})
+			cache.SetModule(fileURI, module)
+			cache.SetSuccessfulParseLineCount(fileURI, len(lines))
+			cache.SetFileRefs(fileURI, definedRefs)
+		}) {
+			return false, nil
+		}
 
 		if err := PutFileMod(ctx, store, fileURI, module); err != nil {
 			return false, fmt.Errorf("failed to update rego store with parsed module: %w", err)
 		}
-
-		definedRefs := refs.DefinedInModule(module, builtins)
-
-		cache.SetFileRefs(fileURI, definedRefs)
 
 		// TODO: consider how we use and generate these to avoid needing to have in the cache and the store
 		var ruleRefs []string
@@ -150,7 +149,9 @@ func updateParse(
 		})
 	}
 
-	cache.SetParseErrors(fileURI, diags)
+	if !cache.IfPresent(fileURI, func() { cache.SetParseErrors(fileURI, diags) }) {
+		return false, nil
+	}
 
 	if len(diags) == 0 {
 		return false, errors.New("failed to parse module, but no errors were set as diagnostics")
@@ -202,30 +203,22 @@ func updateFileDiagnostics(
 
 	fileDiags := convertReportToDiagnostics(&rpt, workspaceRootURI)
 
-	files := cache.GetAllFiles()
-
-	for uri := range files {
+	// the file may have been deleted or renamed while it was being linted: neither its diagnostics
+	// nor its aggregates must be re-created
+	cache.IfPresent(fileURI, func() {
 		// if a file has parse errors, continue to show these until they're addressed
-		parseErrs, ok := cache.GetParseErrors(uri)
-		if ok && len(parseErrs) > 0 {
-			continue
-		}
-
-		// For updateFileDiagnostics, we only update the file in question.
-		if uri == fileURI {
-			fd, ok := fileDiags[uri]
+		parseErrs, ok := cache.GetParseErrors(fileURI)
+		if !ok || len(parseErrs) == 0 {
+			fd, ok := fileDiags[fileURI]
 			if !ok {
 				fd = []types.Diagnostic{}
 			}
 
-			cache.SetFileDiagnosticsForRules(uri, updateDiagnosticsForRules, fd)
+			cache.SetFileDiagnosticsForRules(fileURI, updateDiagnosticsForRules, fd)
 		}
-	}
 
-	// the file may have been deleted or renamed while it was being linted: its aggregates must not be re-created
-	if _, ok := files[fileURI]; ok {
 		cache.SetFileAggregates(fileURI, rpt.Aggregates)
-	}
+	})
 
 	return nil
 }
@@ -269,24 +262,27 @@ func updateAllDiagnostics(
 	fileDiags := convertReportToDiagnostics(&rpt, workspaceRootURI)
 
 	for uri := range files {
-		parseErrs, ok := cache.GetParseErrors(uri)
-		if ok && len(parseErrs) > 0 {
-			continue
-		}
+		// files may have been deleted or renamed during the lint: nothing is to be re-created for those
+		cache.IfPresent(uri, func() {
+			parseErrs, ok := cache.GetParseErrors(uri)
+			if ok && len(parseErrs) > 0 {
+				return
+			}
 
-		fd, ok := fileDiags[uri]
-		if !ok {
-			fd = []types.Diagnostic{}
-		}
+			fd, ok := fileDiags[uri]
+			if !ok {
+				fd = []types.Diagnostic{}
+			}
 
-		// when only an aggregate report was run, then we must make sure to
-		// only update diagnostics from these rules. So the report is
-		// authoratative, but for those rules only.
-		if aggregatesReportOnly {
-			cache.SetFileDiagnosticsForRules(uri, updateDiagnosticsForRules, fd)
-		} else {
-			cache.SetFileDiagnostics(uri, fd)
-		}
+			// when only an aggregate report was run, then we must make sure to
+			// only update diagnostics from these rules. So the report is
+			// authoratative, but for those rules only.
+			if aggregatesReportOnly {
+				cache.SetFileDiagnosticsForRules(uri, updateDiagnosticsForRules, fd)
+			} else {
+				cache.SetFileDiagnostics(uri, fd)
+			}
+		})
 	}
 
 	if overwriteAggregates {
